@@ -261,6 +261,11 @@ def binop(it, op, a, b, node=None):
             return SStr([('opaque', 'repeat', (a, b.t))])
     if isinstance(op, ast.Mod) and isinstance(a, str):
         raise Unsupported('% formatting')
+    if isinstance(op, ast.BitOr) and (isinstance(a, SymSet) or isinstance(b, SymSet)):
+        def member(v, x):
+            r = contains(it, v, x, node)
+            return z3.BoolVal(r) if isinstance(r, bool) else r
+        return SymSet(lambda x: z3.Or(member(a, x), member(b, x)))
     if isinstance(op, ast.BitOr):
         if isinstance(a, (EnumVal, SEnum)) and isinstance(b, (EnumVal, SEnum)) and a.cls is b.cls \
                 and a.cls.kind in ('flag', 'intflag'):
@@ -514,6 +519,8 @@ def contains(it, container, x, node=None):
         return libattr._host_fn(container.name + '.dom', z3.BoolSort())(libattr.host_opaque_key(x))
     elif isinstance(container, SymList):
         return it.lib.symlist_contains(it, container, x, node)
+    elif isinstance(container, SymSet):
+        return container.contains_fn(x)
     elif isinstance(container, ClassVal) and container.kind in ('enum', 'flag', 'intflag', 'intenum'):
         if isinstance(x, EnumVal):
             return x.cls is container
